@@ -189,8 +189,8 @@ w('''
 //@   at Store.0 before assert [C25] new_entry_wf: txEntryWF(h, arg(2)) && owns(arg(2))
 // C06: the exchange stored for a broker PUBLISH must not replace an exchange the client started that is still in progress;
 // the message ID chosen for the REGISTER of a QoS 0 PUBLISH is one no exchange uses.
-//@   at Store.0 before assert [C06] no_client_exchange_replaced: !(arg(1) in h.transactions.bypktID) || !(startedByClient(h.transactions.bypktID[arg(1)]) && inProgress(h.transactions.bypktID[arg(1)]))
-//@   at Store.0 before assert [C06] register_id_of_a_qos0_publish_is_free: mqPublish.Qos == 0 ==> !(arg(1) in h.transactions.bypktID)
+//@   at Store.0 before check [C06] no_client_exchange_replaced: !(arg(1) in h.transactions.bypktID) || !(startedByClient(h.transactions.bypktID[arg(1)]) && inProgress(h.transactions.bypktID[arg(1)]))
+//@   at Store.0 before check [C06] register_id_of_a_qos0_publish_is_free: mqPublish.Qos == 0 ==> !(arg(1) in h.transactions.bypktID)
 // lemma steps: the invariant of the pending announcements is carried across the draw of a topic ID, the claim of the
 // drawn ID by this exchange, and the store of the exchange
 //@   at newTopicID.0 after assert [C25] pend_after_draw: pendInv(h)
